@@ -278,6 +278,7 @@ def run(ctx):
 
     ctx.attempt(merge_dedup_rule, ctx)
     ctx.attempt(merge_single_rule, ctx)
+    ctx.attempt(partition_interpreted_rule, ctx)
     ownership_rule(ctx, fg)
     ghost_scope_rule(ctx, fg)
     table_scope_rule(ctx)
@@ -618,3 +619,122 @@ def merge_single_rule(ctx):
         r.ok("single mixed mesh: returned unchanged with the identity mapping")
     else:
         r.fail(f.qualname, "merge-single-mixed", f.file, f.lineno, "Mesh.Merge", f"single mixed mesh: mapping {list(mp.data)} is not the identity over its 7 nodes")
+
+
+def partition_interpreted_rule(ctx, rid="R20.12"):
+    """'assigns every element and every node to exactly one owner, gives each part exactly its own elements plus every
+    element touching a node it owns': `Mesher.__Get_partitioned_groupElems` is INTERPRETED (gmsh's partition queries are
+    answered from a table) on small meshes and the partition data it hands to the groups are checked against the statement
+    itself, whatever ownership policy the code follows:
+      (1) the owned-node sets of the ranks are disjoint and cover every node of the group;
+      (2) every element is owned by exactly one rank;
+      (3) the ghost elements of a rank are exactly the elements of the other ranks with a node the rank owns (any node of
+          the element: a quadratic element may touch an owned mid-edge node with none of its corners owned);
+      (4) the group of a rank holds the rows of its own and its ghost elements.
+    Scenarios: a TRI6 patch over three ranks in which rank 1 owns a single mid-edge node whose end vertices belong to
+    rank 0; a SEG3 boundary group processed after it (ownership table already filled); a TRI3 patch over two ranks."""
+    from types import SimpleNamespace
+
+    from ..xeval import Interp, XObj, Opaque, XRaise, FuncInfo
+    from ..xarray import XArray
+
+    repo = ctx.repo
+    ci = repo.cls(MESHER)
+    f = repo.lookup_method(ci, ci.mangle("__Get_partitioned_groupElems"))
+    r = ctx.rule(rid, "partitioner interpreted: owned nodes disjoint and covering, one owner per element, ghosts == elements of other ranks touching an owned node (mid-edge nodes included), group rows == own + ghost rows; TRI6 over 3 ranks, a SEG3 group after it, TRI3 over 2 ranks", min_instances=3)
+
+    def run_case(label, props, conn, elem_rank, table0):
+        r.instance(fn=f.qualname)
+        ne, npe = len(conn), len(conn[0])
+        connect = XArray((ne, npe), [x for row in conn for x in row], "i")
+        created = []
+
+        def hook(fn, args, kwargs):
+            if isinstance(fn, Opaque):
+                t = fn.tag
+                if t.endswith("getElementProperties"):
+                    return props
+                if t.endswith("model.getEntities"):
+                    return [(props[1], e + 1) for e in range(ne)]  # one entity per element
+                if t.endswith("getPartitions"):
+                    return XArray((1,), [elem_rank[args[1] - 1] + 1], "i")
+                if t.endswith("getElementsByType"):
+                    return (XArray((1,), [kwargs.get("tag", args[1] if len(args) > 1 else None)], "i"), Opaque("nodeTags"))
+            fi = fn if isinstance(fn, FuncInfo) else getattr(fn, "finfo", None)
+            if fi is not None and fi.name == "_Create":
+                g = SimpleNamespace(connect=args[1])
+
+                def setp(elements, nodes, rank, ghostElements, g=g):
+                    g.part = (elements, nodes, rank, ghostElements)
+
+                g._Set_partitioned_data = setp
+                created.append(g)
+                return g
+            return NotImplemented
+
+        I = Interp(repo, max_steps=5_000_000)
+        I.call_hook = hook
+        nproc = max(elem_rank) + 1
+        table = {k: set(v) for k, v in table0.items()} if table0 else {k: set() for k in range(nproc)}
+        try:
+            I.call_function(f, [9, connect, XArray((ne,), list(range(ne)), "i"), Opaque("coordinates"), table], self_obj=XObj(ci, {}))
+        except XRaise as e:
+            r.fail(f.qualname, f"partition:{label}", f.file, f.lineno, "Mesher.__Get_partitioned_groupElems", f"{label}: raises {e}")
+            return table
+        ints = lambda x: [int(v) for v in XArray.from_nested(x).data]
+        bad = None
+        if len(created) != nproc or any(not hasattr(g, "part") for g in created):
+            bad = f"{len(created)} groups created for {nproc} ranks (or partition data missing)"
+        else:
+            parts = [(ints(g.part[0]), ints(g.part[1]), g.part[2], ints(g.part[3]), XArray.from_nested(g.connect)) for g in created]
+            allnodes = sorted({n for row in conn for n in row})
+            owner = {}
+            for k, (els, nodes, rank, ghosts, rows) in enumerate(parts):
+                if bad is None and rank != k:
+                    bad = f"group {k} is labelled rank {rank}"
+                for n in table[k] if table0 else nodes:
+                    if n in owner and owner[n] != k and bad is None:
+                        bad = f"node {n} is owned by ranks {owner[n]} and {k}"
+                    owner[n] = k
+            if bad is None and any(n not in owner for n in allnodes):
+                bad = f"node(s) {[n for n in allnodes if n not in owner]} have no owner"
+            eowner = {}
+            for k, (els, *_rest) in enumerate(parts):
+                for e in els:
+                    if e in eowner and bad is None:
+                        bad = f"element {e} is owned by ranks {eowner[e]} and {k}"
+                    eowner[e] = k
+            if bad is None and sorted(eowner) != list(range(ne)):
+                bad = f"elements {sorted(set(range(ne)) - set(eowner))} have no owner"
+            if bad is None and any(eowner[e] != elem_rank[e] for e in range(ne)):
+                bad = "an element is not given to the rank of its partition"
+            for k, (els, nodes, rank, ghosts, rows) in enumerate(parts):
+                if bad is not None:
+                    break
+                owned = set(table[k]) if table0 else set(nodes)
+                if not table0 and set(nodes) != set(table[k]):
+                    bad = f"rank {k}: the owned nodes handed to the group {sorted(nodes)} are not the rank's entry of the ownership table {sorted(table[k])}"
+                    break
+                want = sorted(e for e in range(ne) if eowner[e] != k and owned & set(conn[e]))
+                if sorted(ghosts) != want:
+                    miss = sorted(set(want) - set(ghosts))
+                    bad = f"rank {k} owns the nodes {sorted(owned)}; its ghost elements are {sorted(ghosts)}, the elements of other ranks touching one of those nodes are {want}" + (f": element {miss[0]} = {conn[miss[0]]} touches the owned node {sorted(owned & set(conn[miss[0]]))[0]} and is missing - the rows of that node assembled on this part are incomplete" if miss else "")
+                    break
+                rows_want = [conn[e] for e in sorted(set(els) | set(ghosts))]
+                got_rows = [[int(rows[i, j]) for j in range(npe)] for i in range(rows.shape[0])]
+                if got_rows != rows_want:
+                    bad = f"rank {k}: the group holds the rows {got_rows}, expected the rows of its own and ghost elements {rows_want}"
+        if bad:
+            r.fail(f.qualname, f"partition:{label}", f.file, f.lineno, "Mesher.__Get_partitioned_groupElems", f"{label}: {bad}")
+        else:
+            r.ok(f"{label}: ownership is a partition, ghosts complete, rows = own + ghost")
+        return table
+
+    # corners a=0 b=1 c=2 d=3 e=4 g=5; mid-edge nodes ab=6 bc=7 ca=8 ae=9 ec=10 cg=11 gb=12 ad=13 db=14
+    tri6 = [[0, 4, 2, 9, 10, 8], [1, 2, 5, 7, 11, 12], [0, 1, 2, 6, 7, 8], [1, 0, 3, 6, 13, 14]]
+    t = run_case("TRI6 patch over three ranks (rank 1 owns the mid-edge node 6 only, its end vertices 0 and 1 belong to rank 0)", ("Triangle 6", 2, 2, 6, Opaque("localCoords"), 3), tri6, [0, 0, 1, 2], None)
+    # the boundary group of the same mesh, processed with the table the surface group left: segments (a, b | ab), (b, d | db), (a, e | ae)
+    seg3 = [[0, 1, 6], [1, 3, 14], [0, 4, 9]]
+    run_case("SEG3 boundary group processed after the surface group (ownership table already filled)", ("Line 3", 1, 2, 3, Opaque("localCoords"), 2), seg3, [2, 2, 0], t if all(t.values()) else {0: {0, 1, 2, 4, 5, 7, 8, 9, 10, 11, 12}, 1: {6}, 2: {3, 13, 14}})
+    tri3 = [[0, 1, 2], [1, 3, 2], [3, 4, 2], [4, 5, 2]]
+    run_case("TRI3 fan over two ranks", ("Triangle 3", 2, 1, 3, Opaque("localCoords"), 3), tri3, [0, 0, 1, 1], None)
